@@ -888,6 +888,45 @@ def cursor_gen(tier):
     return gen
 
 
+# what an object reports about its own state after a failed operation
+STATE_PROGS = [
+    ("sqlite3-failed-open", 'import sqlite3; d = sqlite3(); print d.isopen(); print d.open("/nonexistent/dir/x.db"); print d.isopen(); print d.close(); print d.open(":memory:") d.isopen(); '
+     'print d.open("/nonexistent/dir/y.db") d.isopen();', "FALSE\nFALSE\nFALSE\nFALSE\nTRUETRUE\nFALSEFALSE\n"),
+    ("sqlite3-closed", 'import sqlite3; d = sqlite3(":memory:"); print d.isopen(); print d.close() d.isopen(); print d.close();', "TRUE\nTRUEFALSE\nFALSE\n"),
+    ("file-failed-open", 'import file; f = file(); print f.isopen(); print f.open("/nonexistent/dir/f", "r") != 0; print f.isopen(); print f.close() != 0;', None),
+    ("file-failed-reopen", 'import file; f = file(path, "w"); print f.isopen(); zz = f.open("/nonexistent/dir/f", "r"); print f.isopen(); '
+     'begin zz = f.write("x"); print "written"; exception when others then print "refused"; end;', None),
+]
+
+
+def state_gen(tier):
+    def gen():
+        for n, (tag, prog, want) in enumerate(STATE_PROGS):
+            path = os.path.join(sdir(), "st-%d-%d" % (os.getpid(), n))
+            ops = ["isolate", op_ctx(0, True), "rmfile %s" % hx(path), op_setvar("PATH", "s" + path.encode().hex()), op_run(prog), op_out(0)]
+            yield Case("st%d" % n, ops, {"kind": "state", "tag": tag, "prog": prog, "want": want})
+    return gen
+
+
+def check_state(case, res, vs):
+    m = case.meta
+    st = res["steps"]
+    out = unhex(st[5].get("out", "")).decode("latin-1")
+    if m["want"] is not None:
+        if st[4].get("r") != "ok" or out != m["want"]:
+            vs.append(Violation("state:%s" % m["tag"], "%s gives %s %r, expected %r" % (m["prog"], st[4].get("r"), out, m["want"]), case))
+    else:
+        # the reports of one object must be consistent: not open after a failed open, and then nothing is written
+        lines = out.split("\n")
+        if st[4].get("r") not in ("ok", "rerr"):
+            vs.append(Violation("state:%s" % m["tag"], "%s -> %s" % (m["prog"], st[4]), case))
+        elif m["tag"] == "file-failed-open" and lines[:3] != ["FALSE", "TRUE", "FALSE"]:
+            vs.append(Violation("state:%s" % m["tag"], "%s prints %r" % (m["prog"], out), case))
+        elif m["tag"] == "file-failed-reopen" and not (lines[:2] == ["TRUE", "FALSE"] and (len(lines) < 3 or lines[2] in ("refused", ""))):
+            vs.append(Violation("state:%s" % m["tag"], "%s prints %r" % (m["prog"], out), case))
+    return vs, True
+
+
 def check_cursor(case, res, vs):
     m = case.meta
     st = res["steps"]
@@ -913,6 +952,8 @@ def check(case, res):
     k = case.meta["kind"]
     if k == "cursor":
         return check_cursor(case, res, vs)
+    if k == "state":
+        return check_state(case, res, vs)
     if k == "csv":
         return check_csv(case, res, vs)
     if k == "utf8":
@@ -931,7 +972,7 @@ def run(tier):
     deadline = t0 + (3000 if tier == "thorough" else 420)
     build.ensure("asan", bins=("vdrv",))
     total = Result()
-    for name, g in (("csv", csv_gen(tier)), ("utf8", utf8_gen(tier)), ("file", file_gen(tier)), ("bigfile", bigfile_gen(tier)), ("sqlite3", sql_gen(tier)), ("lattice", lattice_gen(tier)), ("cursor", cursor_gen(tier))):
+    for name, g in (("csv", csv_gen(tier)), ("utf8", utf8_gen(tier)), ("file", file_gen(tier)), ("bigfile", bigfile_gen(tier)), ("sqlite3", sql_gen(tier)), ("lattice", lattice_gen(tier)), ("cursor", cursor_gen(tier)), ("state", state_gen(tier))):
         total.merge(explore("%s-%s-%s" % (PROP, tier, name), g, check, chunk=60, deadline=deadline))
     rule = ("csv: all rows of 1 field (length <=%d), 2 fields, 3 short fields over {a, space, separator, quote, LF, CR} x 4 formats, one-shot and line by line; "
             "utf8: all byte strings of length <=%d over 16 class bytes x positions; file: all sequences of <=%d operations x 6 open modes against a twin; "
